@@ -26,7 +26,7 @@ def run(ctx):
     exe = L.build_harness(ctx, HDIR)
     if not exe:
         return
-    n = 400 if ctx.tier == "quick" else 8000
+    n = 800 if ctx.tier == "quick" else 8000
     rc, out = L.run_harness(ctx, exe, TEST, env={"VERIF_N": n})
     if rc != 0:
         ctx.tie_failures.append("harness run failed (rc=%d): %s" % (rc, out[-500:]))
